@@ -63,6 +63,10 @@ st!(S6 { c: char, i: i8 });
 st!(S7 { u: (), n: N });
 st!(S8 { #[serde(default)] d: u32, x: String });
 st!(S9 { w: Vec<Option<u16>>, z: i64 });
+// keys that the writer has to escape (serde rename)
+#[derive(Deserialize, Serialize)] struct S13 { #[serde(rename = "user-name")] a: String, #[serde(rename = "a b")] b: u8, #[serde(rename = "ü")] c: Option<String>, #[serde(rename = "k=&%")] d: bool }
+impl Canon for S13 { fn canon(&self) -> J { json!({"struct": [["user-name", self.a.canon()], ["a b", self.b.canon()], ["ü", self.c.canon()], ["k=&%", self.d.canon()]]}) } }
+impl Build for S13 { fn build(j: &J) -> Self { let a = j["struct"].as_array().unwrap(); S13 { a: String::build(&a[0][1]), b: u8::build(&a[1][1]), c: <Option<String>>::build(&a[2][1]), d: bool::build(&a[3][1]) } } }
 st!(S12 { f: f64, g: f32, o: Option<f64>, v: Vec<f32> });
 st!(S11 { m: E2, o: Option<E2>, v: Vec<E2> });
 st!(S10 { h: u64, g: i16, k: i32, l: Option<u64>, m: Vec<u64> });   // with S0-S9: every integer width the codec has a method for
@@ -119,7 +123,7 @@ pub fn run_case(c: &J) -> J {
         let v = c["value"].clone();
         return match tid {
             0 => ser::<S0>(&v), 1 => ser::<S1>(&v), 2 => ser2(&v), 3 => ser::<S3>(&v), 4 => ser::<S4>(&v),
-            5 => ser::<BTreeMap<String, String>>(&v), 6 => ser::<S6>(&v), 7 => ser::<S7>(&v), 8 => ser::<S8>(&v), 9 => ser::<S9>(&v), 10 => ser::<S10>(&v), 11 => ser::<S11>(&v), 12 => ser::<S12>(&v),
+            5 => ser::<BTreeMap<String, String>>(&v), 6 => ser::<S6>(&v), 7 => ser::<S7>(&v), 8 => ser::<S8>(&v), 9 => ser::<S9>(&v), 10 => ser::<S10>(&v), 11 => ser::<S11>(&v), 12 => ser::<S12>(&v), 13 => ser::<S13>(&v),
             _ => json!({"outcome": "bad-tid"}),
         }
     }
@@ -127,7 +131,7 @@ pub fn run_case(c: &J) -> J {
     match tid {
         0 => run::<S0>(&input), 1 => run::<S1>(&input), 2 => run::<S2>(&input), 3 => run::<S3>(&input),
         4 => run::<S4>(&input), 5 => run::<BTreeMap<String, String>>(&input), 6 => run::<S6>(&input),
-        7 => run::<S7>(&input), 8 => run::<S8>(&input), 9 => run::<S9>(&input), 10 => run::<S10>(&input), 11 => run::<S11>(&input), 12 => run::<S12>(&input),
+        7 => run::<S7>(&input), 8 => run::<S8>(&input), 9 => run::<S9>(&input), 10 => run::<S10>(&input), 11 => run::<S11>(&input), 12 => run::<S12>(&input), 13 => run::<S13>(&input),
         _ => json!({"outcome": "bad-tid"}),
     }
 }
